@@ -34,7 +34,8 @@ class Built:
         for g in desc.groups:
             self.node[g.name] = ConnectorDegreeGroupingNode(g.name)
         for d in desc.dvs:
-            self.node[d.name] = DesignVariableNode(d.name, bounds=tuple(d.bounds) if d.bounds else None,
+            # 'span#2': a second node that is DISPLAYED as 'span' (two nodes of one graph may carry the same name)
+            self.node[d.name] = DesignVariableNode(d.name.split('#')[0], bounds=tuple(d.bounds) if d.bounds else None,
                                                    options=list(d.options) if d.options else None)
         for m in desc.metrics:
             t = getattr(MetricType, m.type) if m.type else None
@@ -185,6 +186,13 @@ def family_sel(tier='quick'):
         out.append(_sel(f'cycle-cross-edge-to-nested-choice-{int(with_w)}', ['S', 'X', 'Y', 'Q', 'R', 'P', 'U', 'V'] + (['W'] if with_w else []),
                         e + [('R', 'P'), ('P', 'R'), ('R', 'Q'), ('Y', 'P')], ['S'],
                         [('C1', 'S', ['X', 'Y']), ('C2', 'Q', ['U', 'V'])]))
+    # a node that derives itself (cycle of length one) below an option, next to a cycle of length two
+    out.append(_sel('self-derivation-below-option', ['S', 'A', 'B', 'X', 'Y', 'Z', 'V', 'W'],
+                    [('A', 'X'), ('X', 'X'), ('X', 'Z'), ('B', 'Y'), ('Y', 'V'), ('V', 'W'), ('W', 'V')], ['S'],
+                    [('C', 'S', ['A', 'B'])]))
+    out.append(_sel('self-derivation-shared-by-two-choices', ['S', 'M', 'N', 'A', 'B', 'P', 'Q', 'X', 'Z'],
+                    [('S', 'M'), ('S', 'N'), ('A', 'X'), ('P', 'X'), ('X', 'X'), ('X', 'Z')], ['S'],
+                    [('C1', 'M', ['A', 'B']), ('C2', 'N', ['P', 'Q'])]))
     # no choices at all
     out.append(_sel('no-choice', ['A', 'B', 'C'], [('A', 'B'), ('B', 'C')], ['A'], []))
     # choice whose option activates two further choices
@@ -522,6 +530,14 @@ def family_dvmet(tier='quick'):
                      ('B2', 'C2'), ('O2', 'P')], ['R'], choices=[('X', 'R', ['O1', 'O2'])],
                     dvs=[('d1', 'C1', None, ['x', 'y', 'z']), ('d2', 'C2', (0.0, 1.0), None)],
                     label='dv-double-diamond-shared-walk'))
+    # two design-variable nodes that are displayed under the same name (a "span" below the wing option and a "span"
+    # below the permanent tail), discrete and continuous; a third variable of another name
+    out.append(Desc(['R', 'W0', 'W1', 'T'], [('R', 'T')], ['R'], choices=[('C1', 'R', ['W0', 'W1'])],
+                    dvs=[('span', 'W0', None, ['a', 'b', 'c']), ('span#2', 'T', None, ['a', 'b', 'c', 'd']), ('chord', 'T', (0.0, 2.0), None)],   # (different option lists: the nodes' context strings differ)
+                    label='dv-two-nodes-same-name-discrete'))
+    out.append(Desc(['R', 'W0', 'W1', 'T'], [('R', 'T')], ['R'], choices=[('C1', 'R', ['W0', 'W1'])],
+                    dvs=[('span', 'T', (0.0, 1.0), None), ('span#2', 'W1', (1.0, 3.0), None), ('kind', 'T', None, ['x', 'y'])],
+                    label='dv-two-nodes-same-name-continuous'))
     return out
 
 
@@ -690,6 +706,12 @@ def family_conn2(tier='quick'):
                            ('s2', one, False, 'A'), ('t2a', opt, False, 'A'), ('t2b', opt, False, 'A')],
                     conn_choices=[('K1', ['s0'], ['t0a', 't0b'], []), ('K2', ['s1'], ['t1a', 't1b'], []),
                                   ('K3', ['s2'], ['t2a', 't2b'], [])], label='conn3-middle-conditional'))
+    # a design space without any selection choice: one connection choice and a metric on the permanent node (decoded
+    # instances are then all derived from the same base graph object)
+    out.append(Desc(['A'], [], ['A'],
+                    conns=[('a0', opt, False, 'A'), ('a1', opt, False, 'A'), ('b0', opt, False, 'A'), ('b1', opt, False, 'A')],
+                    conn_choices=[('K1', ['a0', 'a1'], ['b0', 'b1'], [])], metrics=[('mass', 'A', -1, None, None)],
+                    label='conn-only-with-metric-no-selection-choice'))
     # two connection problems of one graph that look alike: same shapes and degrees, they differ only in WHICH pair is
     # excluded / in whether parallel connections are allowed (everything the library memoises per connection problem,
     # in memory or on disk, has to tell them apart)
